@@ -9,7 +9,7 @@ from .runner import ROOT, hyp_run
 PROP = "C18"
 LEVEL = "exploration"
 RULE = (
-    "exhaustive: every shape with <= 8 nodes and every full shape (0 or 2 children) with <= 17 nodes, each laid out with "
+    "exhaustive: every shape with <= 8 (quick) / 9 (thorough) nodes and every full shape (0 or 2 children) with <= 17 / 19 nodes, each laid out with "
     "unit multipliers (1,1) and one other pair from {0.5,1,2,3}^2, laid out a second and third time on the same nodes, on "
     "a fresh tree, and mirrored; plus Hypothesis-drawn shapes to 60 nodes (general and full); oracle clauses: (a) y == "
     "depth*unit_y, (b) left child strictly left / right child strictly right, (c) two-child parent centred, (d) nodes of a "
@@ -159,8 +159,10 @@ STRICT = {"a", "c", "e", "f-repeat", "f-fresh", "f-units", "raised", "e-subtree"
 
 
 def in_enumerated_domain(shape):
+    """The domain in which known-finding attribution is exact (pinned list): all shapes <= 9 nodes and all full shapes
+    <= 19 nodes. The quick tier enumerates its <= 8 / <= 17 part, the thorough tier all of it."""
     n = S.size(shape)
-    return n <= 8 or (n <= 17 and S.is_full(shape))
+    return n <= 9 or (n <= 19 and S.is_full(shape))
 
 
 _known = None
@@ -221,17 +223,17 @@ def replay(ctx, case):
     check_shape(ctx, case)
 
 
-def enumerated_shapes():
+def enumerated_shapes(thorough=False):
     out = []
-    for n in range(1, 9):
+    for n in range(1, 10 if thorough else 9):
         out.extend(S.shapes_exact(n))
-    for n in range(9, 18, 2):
+    for n in range(11 if thorough else 9, 20 if thorough else 18, 2):
         out.extend(S.full_shapes_exact(n))
     return out
 
 
 def run(ctx):
-    shapes = enumerated_shapes()
+    shapes = enumerated_shapes(ctx.tier == "thorough")
     for i, sh in enumerate(shapes):
         if i % ctx.nshards != ctx.shard:
             continue
@@ -241,7 +243,7 @@ def run(ctx):
         ctx.count("evaluations")
         check_shape(ctx, {"shape": text, "ux": UNITS[i % 4], "uy": UNITS[(i // 4 + 1) % 4]})
     ctx.info["exhaustive"] = True
-    ctx.info["exhaustive_bound"] = "all shapes <= 8 nodes and all full shapes <= 17 nodes (4102 shapes), two multiplier pairs each"
+    ctx.info["exhaustive_bound"] = f"all shapes <= {9 if ctx.tier == 'thorough' else 8} nodes and all full shapes <= {19 if ctx.tier == 'thorough' else 17} nodes ({len(shapes)} shapes), two multiplier pairs each"
     units = st.sampled_from(UNITS)
     rnd = st.builds(lambda s, a, b: {"shape": s, "ux": a, "uy": b}, st.one_of(S.shape_strategy(60, 9), S.shape_strategy(59, 19, full=True)), units, units)
     hyp_run(ctx, "random-shapes", rnd, check_shape, ctx.n(1500, 10000))
